@@ -157,7 +157,9 @@ pub fn eval_variable(
     query: &mut expr::EvalVariableQuery)
     -> Result<expr::Value, ()>
 {
-    if query.hierarchy_level == 0
+    // (built-in names are single names: `pc.x` is an ordinary path)
+    if query.hierarchy_level == 0 &&
+        query.hierarchy.len() == 1
     {
         let maybe_builtin = eval_builtin_symbol(
             decls,
@@ -219,7 +221,9 @@ pub fn eval_variable_simple(
     query: &mut expr::EvalVariableQuery)
     -> Result<expr::Value, ()>
 {
-    if query.hierarchy_level == 0
+    // (built-in names are single names: `pc.x` is an ordinary path)
+    if query.hierarchy_level == 0 &&
+        query.hierarchy.len() == 1
     {
         match query.hierarchy[0].as_ref()
         {
@@ -251,7 +255,9 @@ pub fn eval_variable_certain(
     query: &mut expr::EvalVariableQuery)
     -> Result<expr::Value, ()>
 {
-    if query.hierarchy_level == 0
+    // (built-in names are single names: `pc.x` is an ordinary path)
+    if query.hierarchy_level == 0 &&
+        query.hierarchy.len() == 1
     {
         match query.hierarchy[0].as_ref()
         {
